@@ -390,7 +390,7 @@ def parseOutput (s : String) : Except CliErr Mode := parseOutputL s.toList
 def chooseMode : Option String → Option String → Except CliErr Mode
   | some _, some _ => .error .cantSupplyBoth
   | some o, none => parseOutput o
-  | none, some f => .ok (.format f)
+  | none, some f => if f.toList.isEmpty then .error .invalidFormatString else .ok (.format f)
   | none, none => parseOutput "legacy"
 
 /-- everything that happens before the first byte of input is read: flag handling, then
